@@ -33,7 +33,7 @@ func judgeC09Proc(e *Env, c *C09ProcCase, tag string, run int64) (*c09Obs, bool,
 			if err != nil {
 				return err
 			}
-			if out.Crash != "" || out.CPUOut || out.Signal != "" {
+			if out.Crash != "" || out.CPUOut || out.Blocked || out.Signal != "" {
 				skipped = true // C08's subject
 				return nil
 			}
@@ -73,7 +73,7 @@ func runC09Stdin(e *Env, c *C09StdinCase, tag string, run int64) (*c09Obs, error
 			if err != nil {
 				return err
 			}
-			if out.Crash != "" || out.CPUOut || out.Signal != "" {
+			if out.Crash != "" || out.CPUOut || out.Blocked || out.Signal != "" {
 				return nil
 			}
 			if first == nil {
